@@ -35,7 +35,12 @@ func (t *Type) Decorate(content Message, d *Decoration) (msg Message) {
 		case "sender":
 			with[i] = t.SenderName
 		case "target":
-			with[i] = *t.TargetName
+			if t.TargetName != nil {
+				with[i] = *t.TargetName
+			} else {
+				// the chat type asks for a target the sender did not name
+				with[i] = Text("")
+			}
 		case "content":
 			with[i] = content
 		default:
